@@ -14,7 +14,7 @@ LEVEL = 'other'
 # ------------------------------------------------------------------------------------------------
 # shared helpers (C14, C15, C16)
 
-def make_setup(npts, degrees, uniform_flag=True, rrange=None, vrange=None, period=(False, True, True, False), **consts):
+def make_setup(npts, degrees, uniform_flag=True, rrange=None, vrange=None, period=(False, True, True, False), vbreaks=None, **consts):
     """splines / eta grids exactly as pygyro.initialisation.setups builds them (but any sizes, degrees, flag)"""
     common.use_repo()
     from pygyro.splines.splines import make_knots, BSplines
@@ -31,6 +31,9 @@ def make_setup(npts, degrees, uniform_flag=True, rrange=None, vrange=None, perio
     period = list(period)[:nd]
     nkts = [n + 1 + d * (int(p) - 1) for n, d, p in zip(npts, degrees, period)]
     breaks = [np.linspace(*l, num=n) for l, n in zip(domain, nkts)]
+    if vbreaks is not None and nd == 4:
+        # the caller's own break points along v (graded / asymmetric grids): a function nkts -> increasing array on [vMin, vMax]
+        breaks[3] = np.asarray(vbreaks(nkts[3], c.vMin, c.vMax), dtype=float)
     knots = [make_knots(b, int(d), p) for b, d, p in zip(breaks, degrees, period)]
     bs = [BSplines(k, int(d), p, uniform_flag) for k, d, p in zip(knots, degrees, period)]
     eta = [b.greville for b in bs]
